@@ -809,6 +809,41 @@ int main(int argc, char **argv) {
       bm = BUILD_CREATE;
     Counters cc;
     printf("replay: cfg %s, build %s, history [%s]\n", cn.c_str(), bs.c_str(), hist_str(h).c_str());
+    const std::string ps = replay_field(txt, "point"), rkey = replay_field(txt, "key");
+    if (!ps.empty() && rkey.find("C16:amr:get_key:") == 0) {
+      // a position probe of family E: repeat the call in a child process
+      double q[3];
+      sscanf(ps.c_str(), "%la %la %la", &q[0], &q[1], &q[2]);
+      Box<> box(CoordinateVector<>(c->A[0], c->A[1], c->A[2]), CoordinateVector<>(c->S[0], c->S[1], c->S[2]));
+      Grid grid(box, CoordinateVector< uint_fast32_t >(c->nb[0], c->nb[1], c->nb[2]));
+      grid.create_all_cells(0);
+      for (uint64_t k : h)
+        grid.refine_cell(k);
+      const CoordinateVector<> p(q[0], q[1], q[2]);
+      printf("replay: box anchor (%g %g %g) sides (%g %g %g), position (%.17g %.17g %.17g) = (%a %a %a)\n", c->A[0], c->A[1], c->A[2], c->S[0], c->S[1], c->S[2],
+             p.x(), p.y(), p.z(), p.x(), p.y(), p.z());
+      for (int d = 0; d < 3; ++d)
+        printf("replay:   axis %d: n*(p-anchor)/side = %.17g with n = %d blocks (top %.17g)\n", d, c->nb[d] * (p[d] - c->A[d]) / c->S[d], c->nb[d], c->A[d] + c->S[d]);
+      fflush(nullptr);
+      const pid_t pid = fork();
+      if (pid == 0) {
+        alarm(10);
+        const uint64_t kk = grid.get_key(p);
+        printf("replay:   get_key = 0x%" PRIx64 "\n", kk);
+        const uint64_t &content = grid.get_cell(p);
+        printf("replay:   get_cell returned an object at %p\n", (const void *)&content);
+        fflush(nullptr);
+        _exit(0);
+      }
+      int stt = 0;
+      waitpid(pid, &stt, 0);
+      if (!WIFEXITED(stt) || WEXITSTATUS(stt) != 0) {
+        printf("replay:   the child process ended with status 0x%x (signal %d)\n", stt, WIFSIGNALED(stt) ? WTERMSIG(stt) : 0);
+        R.violation(rkey, "reproduced: get_key/get_cell crashes for a position inside the half-open box");
+      }
+      printf("replay: %" PRIu64 " violation(s)\n", R.violation_count);
+      return R.finish(A);
+    }
     int maxl = 0;
     for (uint64_t k : h)
       maxl = std::max(maxl, key_level(k) + 1);
